@@ -676,6 +676,7 @@ def generate(rng, tier):
         line = '(deco stackx %s %s %s %s)' % (sig_enc(sig), decos_enc(ds), enc(args), enc(kw))
         yield dict(tag='stackx len=%d loops on a %s of a %s type' % (len(ds), type(v).__name__, 'looped' if outside_loops_domain(line) else 'non-looped'),
                    lines=[line])
+    yield dict(tag='presets try_nan .. try_list', lines=['(deco presets)'])
     # construction: every sequence of <= 4 constructor applications (the same class may re-occur at any distance)
     seqs = list(itertools.product(CLASSES, repeat=4))
     for k in (1, 2, 3):
@@ -719,6 +720,19 @@ def res_val(fn):
 def run_line(state, sx):
     import pyg_base
     op, a = sx[1], sx[2:]
+    if op == 'presets':
+        # the preset try_* wrappers of the package: each must be a try_value TEMPLATE (no function yet) that catches on the first
+        # attempt (repeat = 0) and returns its value; the model lists (name, value) - `tryPresets` of PygModel/Try.lean
+        from pyg_base._decorators import try_value
+        out = []
+        for nm in ('try_nan', 'try_zero', 'try_none', 'try_true', 'try_false', 'try_list'):
+            w = getattr(pyg_base, nm)
+            if w is try_value:          # try_none IS the class (its default value is None): the template it makes
+                w = try_value()
+            if type(w) is not try_value or w.repeat != 0 or not w.return_value or w.function is not None:
+                raise AssertionError('%s is not a plain try_value template' % nm)
+            out.append((nm, w.value))
+        return 'ok ' + enc(out)
     if op == 'mk':
         g = make_fn((['a', 'b'], [1], None, None))
         base = g
